@@ -294,6 +294,76 @@ fn reconnect_scenario(ty: Ty, policy: u8, eof_first: bool) -> Verdict {
     e3::finish(v)
 }
 
+/// n subscribers all subscribed to "a"; one of them goes bad (its connection fails every write,
+/// no end-of-stream seen yet) right before three matching publishes: every other subscriber has a
+/// matching subscription and must get each message exactly once, wherever it comes in the
+/// socket's iteration order (hash key and the dead one's index are enumerated).
+fn fault_scenario(ty: Ty, n: usize, dead: usize, kind: u8, hash_key: u64, policy: u8) -> Verdict {
+    e3::set_hash_key(hash_key);
+    world::reset(world::WorldCfg { nested_env: false, yields: true, select: true, policy, coop: false });
+    let conns: Vec<e3::RawConn> = (0..n).map(|p| e3::raw_conn(&format!("S{}", p))).collect();
+    for (p, c) in conns.iter().enumerate() {
+        c.send(&rc::handshake("SUB", Some(format!("S{}", p).as_bytes())));
+        c.send(&rc::encode_message(&[b"\x01a".to_vec()]));
+    }
+    let conns2 = conns.clone();
+    world::spawn_app("app", async move {
+        let mut sock = AnySocket::new(ty, None);
+        for c in &conns2 {
+            let _ = e3::attach_raw(sock.backend(), *c).await;
+        }
+        if ty == Ty::XPub {
+            for _ in 0..conns2.len() {
+                let _ = world::until_idle(sock.recv()).await;
+            }
+        } else {
+            world::idle().await;
+        }
+        let _ = sock.send(msg(&[b"a".to_vec(), b"warm".to_vec()])).await;
+        let ek = match kind {
+            0 => std::io::ErrorKind::BrokenPipe,
+            1 => std::io::ErrorKind::ConnectionReset,
+            _ => std::io::ErrorKind::Other,
+        };
+        world::set_wmode(conns2[dead].from_lib, world::WMode::Fail(ek));
+        for i in 0..3 {
+            let r = sock.send(msg(&[b"a".to_vec(), vec![b'1' + i as u8]])).await;
+            world::log(format!("publish#{} -> {}", i, e3::ok_or_err(&r)));
+        }
+        world::set_cond("published");
+        world::wait_cond("never").await;
+        drop(sock);
+    });
+    let end = world::run(e3::HORIZON);
+    e3::set_hash_key(0);
+    let mut v = Verdict::default();
+    v.truncated = end != world::RunEnd::Quiescent;
+    let what = format!("{} with {} subscribers of \"a\", subscriber {}'s connection starts failing writes ({}) before three publishes (hash key {})", ty.name(), n, dead, ["BrokenPipe", "ConnectionReset", "Other"][kind as usize], hash_key);
+    for p in world::panics() {
+        v.violate("panic", format!("{}: {}", what, p));
+    }
+    if !world::cond("published") && v.violations.is_empty() {
+        v.violate("publisher-stuck", format!("{}: the publishing actor did not finish", what));
+    }
+    let want: Vec<Vec<Vec<u8>>> = std::iter::once(vec![b"a".to_vec(), b"warm".to_vec()]).chain((0..3).map(|i| vec![b"a".to_vec(), vec![b'1' + i as u8]])).collect();
+    let mut canon = Vec::new();
+    for p in 0..n {
+        if p == dead {
+            continue;
+        }
+        let got = conns[p].tap_messages();
+        canon.push(format!("{}:{}", p, got.len()));
+        if got != want {
+            v.violate(
+                "subscriber-failure/matching-message-not-delivered-exactly-once",
+                format!("{}: healthy subscriber {} got {:?}, expected {:?}", what, p, got.iter().map(|m| rc::show_frames(m)).collect::<Vec<_>>(), want.iter().map(|m| rc::show_frames(m)).collect::<Vec<_>>()),
+            );
+        }
+    }
+    v.outcome_hash = rc::fnv(canon.join("|").as_bytes()) ^ rc::fnv(e3::canon_log().join("|").as_bytes());
+    e3::finish(v)
+}
+
 fn pj(p: &Params) -> Value {
     json!({"type": p.ty.name(), "hists": p.hists, "policy": p.policy})
 }
@@ -330,6 +400,10 @@ pub fn run(tier: Tier, replay: Option<String>) -> i32 {
     if let Some(path) = replay {
         let v: Value = serde_json::from_str(&std::fs::read_to_string(&path).expect("read")).expect("json");
         return crate::replay::replay_e3(&v, |p| {
+            if p["scenario"] == "fault" {
+                let (ty, n, dead, kind, hk, pol) = (Ty::from_name(p["type"].as_str()?)?, p["n"].as_u64()? as usize, p["dead"].as_u64()? as usize, p["kind"].as_u64()? as u8, p["hash_key"].as_u64()?, p["policy"].as_u64()? as u8);
+                return Some(std::sync::Arc::new(move || fault_scenario(ty, n, dead, kind, hk, pol)) as zvcore::explore::Scenario);
+            }
             if p["scenario"] == "reconnect" {
                 let (ty, pol, ef) = (Ty::from_name(p["type"].as_str()?)?, p["policy"].as_u64()? as u8, p["eof_first"].as_bool()?);
                 return Some(std::sync::Arc::new(move || reconnect_scenario(ty, pol, ef)) as zvcore::explore::Scenario);
@@ -368,6 +442,23 @@ pub fn run(tier: Tier, replay: Option<String>) -> i32 {
             }
         }
     }
+    for ty in [Ty::Pub, Ty::XPub] {
+        for n in 2..=tier.pick(3usize, 4usize) {
+            for dead in 0..n {
+                for kind in 0..3u8 {
+                    for hash_key in 0..tier.pick(3u64, 6u64) {
+                        jobs.push(e3::job(
+                            format!("C11/fault/{}/{}subs/dead{}/kind{}/key{}", ty.name(), n, dead, kind, hash_key),
+                            json!({"scenario":"fault","type":ty.name(),"n":n,"dead":dead,"kind":kind,"hash_key":hash_key,"policy":0}),
+                            tier.pick(1, 2),
+                            100_000,
+                            move || fault_scenario(ty, n, dead, kind, hash_key, 0),
+                        ));
+                    }
+                }
+            }
+        }
+    }
     e3::run_jobs_into(&mut ck, jobs, false);
     let ex = ck.coverage.get("e3_executions").and_then(|v| v.as_u64()).unwrap_or(0);
     ck.cov("states", n_hist);
@@ -375,7 +466,7 @@ pub fn run(tier: Tier, replay: Option<String>) -> i32 {
     ck.cov("traces_validated_against_impl", ex);
     ck.cov("histories", n_hist);
     ck.cov("exhaustive", true);
-    ck.cov("explanation", format!("for PUB and XPUB: every history of length <= {} over 11 per-subscriber operations (subscribe / unsubscribe to \"\", a, ab, b; three kinds of malformed subscription message) for one subscriber ({} histories) and every pair of histories of length <= 2 for two subscribers ({} pairs); after the subscriptions are processed (PUB: reader tasks to quiescence; XPUB: the application receives them) the socket publishes first frames \"\", a, ab, abc, b, c with a serial second frame. Oracle: reference multiset-of-prefixes model; each subscriber's wire carries message f exactly once iff an active subscription is a byte-prefix of f; wires are well-formed; XPUB.recv returns the subscribers' messages verbatim in per-peer order. states = histories, transitions = executions (default schedule, plus every single deviation for short histories).", tier.pick(4, 5), single.len(), pairs.len() * pairs.len()));
+    ck.cov("explanation", format!("for PUB and XPUB: every history of length <= {} over 11 per-subscriber operations (subscribe / unsubscribe to \"\", a, ab, b; three kinds of malformed subscription message) for one subscriber ({} histories) and every pair of histories of length <= 2 for two subscribers ({} pairs); after the subscriptions are processed (PUB: reader tasks to quiescence; XPUB: the application receives them) the socket publishes first frames \"\", a, ab, abc, b, c with a serial second frame. Oracle: reference multiset-of-prefixes model; each subscriber's wire carries message f exactly once iff an active subscription is a byte-prefix of f; wires are well-formed; XPUB.recv returns the subscribers' messages verbatim in per-peer order. Subscriber-failure family: 2..3 (thorough 4) subscribers of \"a\", each one in turn starting to fail writes (BrokenPipe / ConnectionReset / other) right before three publishes, under 3 (thorough 6) hash keys (iteration orders of the subscriber table): every other subscriber gets each message exactly once. states = histories, transitions = executions (default schedule, plus every single deviation for short histories).", tier.pick(4, 5), single.len(), pairs.len() * pairs.len()));
     ck.assume("matching logic is sequential; interleavings of reader tasks with send are covered by yield points between subscribers (bound 1 on short histories)");
     ck.conclude()
 }
